@@ -905,14 +905,171 @@ def rule_rangecoder(facts):
     return r
 
 
+def rule_carry(facts):
+    """Carry propagation of the range encoder (the cache / pending-0xFF protocol): when `low` leaves the undecided zone the
+    cached byte and then every pending 0xFF byte are emitted with the carry (low >> 32) added, exactly `cachesz` bytes.
+    Decided from the provenance of each byte handed to the sink and the loop's counting - not by running the encoder."""
+    r = report.RuleResult("C04.R8", "carry propagation: cached byte and pending 0xFF run are emitted with the carry added")
+    wl = pat.body_of(facts, "RangeEncoder::write_low")
+    if wl is None:
+        r.need("RangeEncoder::write_low", False)
+        return r
+    tm = Terms(wl)
+    c = cfg(wl)
+    fn = short(wl.name)
+    writes = [blk for blk in wl.calls() if blk.idx in c.reach and blk.term.args and pat.has_field(tm.of_operand(blk.term.args[0]), "stream")
+              and "Write" in (flow.declared(blk.term) or "") and not (flow.declared(blk.term) or "").endswith(("::flush", "::by_ref"))]
+    r.sites = len(writes)
+    r.need("a write to the sink in write_low", len(writes) >= 1)
+    SAMPLES = [(ca, lo) for ca in (0x00, 0x7F, 0xFE, 0xFF) for lo in (0x0, 0x12345678, 0xFEFFFFFF, 0x1_0000_0000, 0x1_00FF_FFFF, 0x1_FEFF_FFFF)]
+
+    def leaf_of(ca, lo):
+        def lf(q):
+            if q[0] == "field" and q[1] == "cache":
+                return ca
+            if q[0] == "field" and q[1] == "low":
+                return lo
+            if q[0] == "call" and q[1].endswith("::wrapping_add") and len(q[2]) == 2:
+                return (pat.eval_term(q[2][0], lf) + pat.eval_term(q[2][1], lf)) & 0xFF
+            raise pat.NotEvaluable(q)
+        return lf
+
+    def alternatives(t):
+        """The term with each phi resolved to one of its inputs."""
+        if not isinstance(t, tuple) or not t:
+            return [t]
+        if not isinstance(t[0], str):
+            outs = [()]
+            for x in t:
+                outs = [o + (a,) for o in outs for a in alternatives(x)]
+            return outs
+        if t[0] == "phi":
+            res = []
+            for x in (t[1] if len(t) == 2 and t[1] and not isinstance(t[1][0], str) else t[1:]):
+                res += alternatives(x)
+            return res
+        outs = [(t[0],)]
+        for x in t[1:]:
+            outs = [o + (a,) for o in outs for a in (alternatives(x) if isinstance(x, tuple) else [x])]
+        return outs
+
+    for blk in writes:
+        name = flow.declared(blk.term) or flow.callee(blk.term) or ""
+        where = pat.where(wl, blk.idx)
+        if not name.endswith("write_u8") or len(blk.term.args) < 2:
+            r.bad("%s|emit-form" % fn, "write_low hands the sink something other than single bytes (%s): cannot establish that each "
+                  "emitted byte is the cached byte or a pending 0xFF plus the carry" % name.split("::")[-1], where, "unverifiable")
+            continue
+        t = tm.of_operand(blk.term.args[1])
+        alts = alternatives(t)
+        funcs = set()
+        try:
+            for a in alts[:16]:
+                funcs.add(tuple(pat.eval_term(a, leaf_of(ca, lo)) for ca, lo in SAMPLES))
+        except pat.Overflow:
+            r.bad("%s|emit-overflow" % fn, "the emitted byte is computed with an addition that overflows when the carry meets 0xFF: %s"
+                  % flow.show(t)[:100], where)
+            continue
+        except pat.NotEvaluable:
+            r.bad("%s|emit-term" % fn, "cannot evaluate the emitted byte as a function of cache and low: %s" % flow.show(t)[:120], where,
+                  "unverifiable")
+            continue
+        want = {tuple((ca + (lo >> 32)) & 0xFF for ca, lo in SAMPLES), tuple((0xFF + (lo >> 32)) & 0xFF for ca, lo in SAMPLES)}
+        if funcs != want:
+            r.bad("%s|emit-value" % fn, "the bytes emitted are not exactly {cache + carry, 0xFF + carry}: %s" % flow.show(t)[:120], where)
+            continue
+        # first the cached byte, then 0xFF: every definition of the carried local outside the loop is `cache`, inside it 0xFF
+        loop = c.loop_blocks_of(blk.idx)
+        if not loop:
+            r.bad("%s|emit-loop" % fn, "the byte is emitted outside a loop: pending 0xFF bytes are not flushed", where)
+            continue
+        order_ok = True
+        seen_defs = 0
+        for b2 in wl.blocks:
+            if b2.cleanup or b2.idx not in c.reach:
+                continue
+            for st in b2.stmts:
+                if st.k != "assign" or st.place.proj:
+                    continue
+                tv = tm.of_rvalue(st.rv, 0) if st.rv.k == "use" else None
+                if tv == ("const", 255):
+                    seen_defs += 1
+                    if b2.idx not in loop:
+                        order_ok = False
+                elif tv is not None and tv[0] == "field" and tv[1] == "cache":
+                    seen_defs += 1
+                    if b2.idx in loop:
+                        order_ok = False
+        if not order_ok or seen_defs < 2:
+            r.bad("%s|emit-order" % fn, "the cached byte must be emitted first (set before the loop) and 0xFF afterwards (set inside it)", where)
+            continue
+        # counting: one decrement of cachesz on every way round the loop, exit on cachesz == 0 only (`?` aside)
+        decs = []
+        for x in sorted(loop):
+            for st in wl.blocks[x].stmts:
+                if st.k == "assign" and st.place.proj and st.place.proj[-1][0] == "field" and st.place.proj[-1][2] == "cachesz":
+                    decs.append((x, tm.of_rvalue(st.rv, 0)))
+        okc = len(decs) == 1 and decs[0][1][0] == "Sub" and pat.has_field(decs[0][1][1], "cachesz") and decs[0][1][2] == ("const", 1)
+        if okc:
+            d = decs[0][0]
+            heads = [h for h, blocks, _ in c.loops() if blk.idx in blocks]
+            for h, blocks, tails in c.loops():
+                if blk.idx in blocks:
+                    for tl in tails:
+                        # from the write to the back edge the decrement is passed
+                        if not c.must_pass(blk.idx, [tl], {d}) and d != tl:
+                            okc = False
+            for x in sorted(loop):
+                for y in c.succ[x]:
+                    if y in loop:
+                        continue
+                    tx = tm.of_operand(wl.blocks[x].term.discr) if wl.blocks[x].term.k == "switch" else None
+                    if tx is not None and tx[0] == "discr":
+                        continue   # the `?` on the write
+                    s_ = pat.cmp_sides(tx) if tx is not None else None
+                    if not (s_ and s_[0] in ("Eq", "Ne") and pat.has_field(s_[1], "cachesz") and s_[2] == ("const", 0)):
+                        okc = False
+        if not okc:
+            r.bad("%s|emit-count" % fn, "the flush loop does not emit exactly cachesz bytes (one decrement per byte, exit on cachesz == 0)", where)
+            continue
+        r.ok("provenance", {"emitted": "cache + carry, then 0xFF + carry, cachesz bytes"})
+    # after the flush the new cached byte is bits 24..31 of low
+    st_cache = []
+    for b2 in wl.blocks:
+        if b2.cleanup or b2.idx not in c.reach:
+            continue
+        for st in b2.stmts:
+            if st.k == "assign" and st.place.proj and st.place.proj[-1][0] == "field" and st.place.proj[-1][2] == "cache":
+                st_cache.append((b2.idx, tm.of_rvalue(st.rv, 0)))
+    r.sites += len(st_cache)
+    good = False
+    if len(st_cache) == 1:
+        try:
+            good = all(pat.eval_term(st_cache[0][1], leaf_of(0, lo)) == ((lo >> 24) & 0xFF) for _, lo in SAMPLES)
+        except (pat.NotEvaluable, pat.Overflow):
+            good = False
+        if good and writes:
+            # stored in the flush branch only, after the bytes went out: every path to the store runs through the head of the
+            # flush loop, and no write follows it
+            sb = st_cache[0][0]
+            heads = [h for h, blocks, _ in c.loops() if writes[0].idx in blocks]
+            good = bool(heads) and sb not in c.loop_blocks_of(writes[0].idx) and c.must_pass(0, [sb], set(heads)) and \
+                not c.some_path(sb, [w.idx for w in writes])
+    if good:
+        r.ok("evaluation", {"cache": "(low >> 24) as u8 after the flush"})
+    else:
+        r.bad("%s|cache-store" % fn, "after the flush the cached byte is not bits 24..31 of low (stored once, after the bytes went out)", pat.where(wl))
+    return r
+
+
 def run(ctx, t0):
     facts = ctx.facts()
     pat.FACTS = facts
     rules = [rule_lzma2_writer(facts), rule_multibyte_writer(facts), rule_block_header(facts), rule_padding(facts),
-             rule_backward(facts), rule_lzma_header(facts), rule_rangecoder(facts)]
+             rule_backward(facts), rule_lzma_header(facts), rule_rangecoder(facts), rule_carry(facts)]
     expl = ("Static, writer-side framing clauses only: guards and emitted-byte terms of the LZMA2 / multi-byte / XZ / .lzma "
             "header writers are extracted from MIR and evaluated over finite domains against the format (and composed with the "
             "reader's extracted terms for inverse checks); sibling agreement of the encoder's context indices with the header "
-            "it writes; range-encoder constants against the decoder's. Round-trip of the range-coded payload is declined.")
+            "it writes; range-encoder constants against the decoder's; provenance and counting of the bytes the carry flush emits. Round-trip of the range-coded payload is declined.")
     return report.finish(PROP, ctx.tier, rules, expl, ["constants in rules/C04.py transcribe the LZMA / LZMA2 / XZ formats"],
                          TRUSTED, t0, None, ctx.seed)
